@@ -56,6 +56,8 @@ AttrCases ==
   \cup {C("largecomm", a, "", <<>>) : a \in {"0", "1", "2"}}
   \cup {C("extcomm", a, b, <<>>) : a \in ExtKinds, b \in ExtFaults}
   \cup {C("unknown", a, b, <<>>) : a \in UnknownTypes, b \in UnknownLens}
+  \* a known code with a malformed (3-octet) value, under flag octets that are / are not the code's canonical ones
+  \cup {C("unknownflags", a, b, <<>>) : a \in {"1", "2", "5", "8", "16", "32"}, b \in {"64", "128", "192", "224", "208", "80"}}
   \cup {C("mpreach", a, b, <<>>) : a \in MpFams, b \in MpNhs}
   \cup {C("missing", "", "", <<>>)}
   \cup {C("unsupported", a, "", <<>>) : a \in Unsupported}
@@ -147,7 +149,7 @@ Acceptable(c, r) == Reason(c, r) = ""
 \* ------------------------------------------------------------------ NLRI cases
 \* k: API NLRI message kind; fam: the family stated next to it in the Path; a: field class
 NlriFams == {"ipv4", "ipv6", "ipv4-mpls", "ipv6-mpls", "ipv4-vpn", "ipv6-vpn", "ipv4-flowspec", "ipv6-flowspec", "l2vpn-evpn",
-             "ipv4-srpolicy", "rtc", "ipv4-mup"}
+             "ipv4-srpolicy", "rtc", "ipv4-mup", "ipv4-flowspec-vpn", "ipv6-flowspec-vpn"}
 PrefixTags == {"v4/24", "v4/0", "v4/32", "v4/33", "v4/300", "v4/host", "v6/64", "v6/128", "v6/129", "v6/host", "garbage", "empty"}
 LabelTags == {"none", "one", "two", "big"}                      \* big: a label of 2^20 (does not fit the 20-bit field)
 N(k, fam, a, b) == [k |-> k, fam |-> fam, a |-> a, b |-> b]
@@ -161,6 +163,9 @@ NlriCases ==
   \cup {N("srpolicy", f, a, "") : f \in {"ipv4-srpolicy", "ipv4"}, a \in {"ep4", "ep16", "ep0", "ep5"}}
   \cup {N("rtc", "rtc", a, "") : a \in {"wildcard", "aswild", "exact", "badrt"}}
   \cup {N("flowspec", f, a, "") : f \in {"ipv4-flowspec", "ipv6-flowspec", "ipv4"}, a \in {"dst", "empty", "badtype", "badprefix", "len300"}}
+  \cup {N("flowspec", f, a, "") : f \in {"ipv4-flowspec", "ipv6-flowspec"}, a \in {"len40", "offset200"}}
+  \cup {N("vpnflowspec", f, a, "") : f \in {"ipv4-flowspec-vpn", "ipv6-flowspec-vpn", "ipv4-flowspec"},
+                                     a \in {"dst", "empty", "badtype", "badprefix", "len300", "len40", "offset200", "nord"}}
   \cup {N("mup-isd", "ipv4-mup", a, "") : a \in {"ok", "nord", "noslash", "len300"}}
   \cup {N("mup-t1st", "ipv4-mup", a, "") : a \in {"ok", "qfi256", "badep"}}
   \cup {N("none", "ipv4", "", "")}
@@ -173,7 +178,8 @@ NlriMustAccept(c) ==
     [] c.k \in {"evpn-macadv", "evpn-prefix", "evpn-multicast", "mup-isd", "mup-t1st"} -> c.a = "ok"
     [] c.k = "srpolicy" -> c.fam = "ipv4-srpolicy" /\ c.a \in {"ep4", "ep16"}
     [] c.k = "rtc"      -> c.a \in {"wildcard", "aswild", "exact"}
-    [] c.k = "flowspec" -> c.fam \in {"ipv4-flowspec", "ipv6-flowspec"} /\ c.a = "dst"
+    [] c.k = "flowspec" -> c.fam \in {"ipv4-flowspec", "ipv6-flowspec"} /\ (c.a = "dst" \/ (c.a = "len40" /\ c.fam = "ipv6-flowspec"))
+    [] c.k = "vpnflowspec" -> c.fam \in {"ipv4-flowspec-vpn", "ipv6-flowspec-vpn"} /\ (c.a = "dst" \/ (c.a = "len40" /\ c.fam = "ipv6-flowspec-vpn"))
     [] OTHER -> FALSE
 
 \* pi(Nlri) = [variant, famok (the variant is the one the stated family carries), mask, maxmask (what the wire decoder enforces
